@@ -386,11 +386,13 @@ pub struct FqStats {
     pub compared: usize,
     pub drifted: usize,
     pub drift_samples: Vec<String>,
+    /// behaviours cut short where the code took a step the lock-granular model does not contain
+    pub left_model: usize,
 }
 
 /// Replays scripts (one JSON array per line). Returns layer-A trace and stats.
 pub fn replay(scripts: &[Value]) -> (Vec<Value>, FqStats) {
-    let mut st = FqStats { behaviours: 0, steps: 0, polls: 0, window_polls: 0, compared: 0, drifted: 0, drift_samples: vec![] };
+    let mut st = FqStats { behaviours: 0, steps: 0, polls: 0, window_polls: 0, compared: 0, drifted: 0, drift_samples: vec![], left_model: 0 };
     let mut trace = vec![];
     for sc in scripts {
         let script: Vec<Value> = sc.as_array().cloned().unwrap_or_default();
@@ -479,6 +481,13 @@ pub fn replay(scripts: &[Value]) -> (Vec<Value>, FqStats) {
                     let _ = poll_fn(&mut probe, &w, &mut delivered, &mut parked, &mut wakes_at_ret);
                 }
                 "Begin" => {
+                    if probe.round_yield_due() {
+                        // the code is about to take a step spec/FairQueue.tla does not contain (it yields after a round of
+                        // deliveries with a stream waiting, fix ff5a291, modelled in spec/Budget.tla): the rest of this
+                        // behaviour cannot be followed step by step; what was recorded so far is still judged by layer A
+                        st.left_model += 1;
+                        break;
+                    }
                     w.lock().unwrap().cur += 1;
                     let before = w.lock().unwrap().cur;
                     st.polls += 1;
